@@ -186,10 +186,12 @@ func RunAfter(b *Battle, shift uint64, pre int) (f Final) {
 			f.Alive = append(f.Alive, h.Alive())
 		}
 	}()
+	timer := time.NewTimer(20 * time.Second)
+	defer timer.Stop() // (time.After would keep every timer alive for its whole period)
 	select {
 	case f = <-done:
 		return f
-	case <-time.After(20 * time.Second):
+	case <-timer.C:
 		// a battle of a few dozen cycles takes microseconds; Run() is spinning
 		hungRuns++
 		return Final{Hung: true}
